@@ -514,52 +514,52 @@ Q q_st_swap_self()
 #define FIRST (-1) // >= 0: op code of the first step is fixed (one query per first operation)
 #endif
 template <int NSTEP>
-static void sv_hist(void* p, M const& m)
+static void sv_hist(void* p, void* q, M const& m) // q: scratch block for a second vector (ledger region 1)
 {
     if constexpr (NSTEP == 0) {
         sv_check(p, m, 0);
-        if (m.n == CAP) vf_witness("history ends in a full vector");
+        vf_witness("a complete history was executed");
         sv_fin(p, 0); END();
     } else {
         u64 op = (NSTEP == KSTEPS && FIRST >= 0) ? u64(FIRST) : nd_idx(SV_NOPS - 1); u64 a = nd_idx(CAP), b = nd_idx(CAP); PV x = nd_pv();
-        auto next = [&](M const& n) { sv_check(p, n, 0); sv_hist<NSTEP - 1>(p, n); };
-        split<SV_NOPS - 1>(op, [&](u64 o) {
+        auto next = [&](M const& n) { sv_check(p, n, 0); sv_hist<NSTEP - 1>(p, q, n); };
+        split_q<SV_NOPS - 1>(op, [&](u64 o) {
             M n = m;
             switch (o) {
             case 0: if (m.n < CAP) { k_sv_emplace_back(p, x); n.push_back(x); next(n); } break;
             case 1: if (m.n > 0) { k_sv_pop_back(p); n.pop_back(); next(n); } break;
-            case 2: if (m.n < CAP) split<CAP>(a, [&](u64 ca) { if (ca <= m.n) { M n2 = m; u64 r = k_sv_emplace(p, ca, x); u64 e = n2.insert_fill((unsigned)ca, 1, x); vf_assert(r == e, "history: emplace iterator"); next(n2); } }); break;
-            case 3: split<CAP>(a, [&](u64 ca) { split<CAP>(b, [&](u64 cb) { if (ca <= cb && cb <= m.n) {
+            case 2: if (m.n < CAP) split_q<CAP>(a, [&](u64 ca) { if (ca <= m.n) { M n2 = m; u64 r = k_sv_emplace(p, ca, x); u64 e = n2.insert_fill((unsigned)ca, 1, x); vf_assert(r == e, "history: emplace iterator"); next(n2); } }); break;
+            case 3: split_q<CAP>(a, [&](u64 ca) { split_q<CAP>(b, [&](u64 cb) { if (ca <= cb && cb <= m.n) {
                         M n2 = m; u64 r = k_sv_erase_range(p, ca, cb); u64 e = n2.erase((unsigned)ca, (unsigned)cb); vf_assert(r == e, "history: erase(first,last) iterator"); next(n2); } }); }); break;
             case 4: k_sv_clear(p); n.clear(); next(n); break;
-            case 5: split<CAP>(a, [&](u64 ca) { M n2 = m; k_sv_resize1(p, ca); n2.resize((unsigned)ca, PV(0)); next(n2); }); break;
-            case 6: if (m.n < CAP) split<CAP>(a, [&](u64 ca) { if (ca <= m.n) { M n2 = m; u64 r = k_sv_insert_r(p, ca, x); u64 e = n2.insert_fill((unsigned)ca, 1, x); vf_assert(r == e, "history: insert(pos,&&) iterator"); next(n2); } }); break;
-            case 7: { void* q = sv_raw(1); k_sv_move_ctor(q, p); sv_check(q, m, 1); k_sv_dtor(p); lg_expect(0, 0, 0, ESZ, TAG);   // relocate through a second vector:
+            case 5: split_q<CAP>(a, [&](u64 ca) { M n2 = m; k_sv_resize1(p, ca); n2.resize((unsigned)ca, PV(0)); next(n2); }); break;
+            case 6: if (m.n < CAP) split_q<CAP>(a, [&](u64 ca) { if (ca <= m.n) { M n2 = m; u64 r = k_sv_insert_r(p, ca, x); u64 e = n2.insert_fill((unsigned)ca, 1, x); vf_assert(r == e, "history: insert(pos,&&) iterator"); next(n2); } }); break;
+            case 7: { lg_register(1, q, k_sv_sizeof()); k_sv_move_ctor(q, p); sv_check(q, m, 1); k_sv_dtor(p); lg_expect(0, 0, 0, ESZ, TAG);   // relocate through a second vector:
                       k_sv_move_ctor(p, q); k_sv_dtor(q); lg_expect(1, 0, 0, ESZ, TAG); next(n); break; }                       // move out, destroy, move back, destroy
-            case 8: split<CAP>(a, [&](u64 ca) { split<CAP>(b, [&](u64 cb) { if (ca <= m.n && cb <= CAP - m.n) {
+            case 8: split_q<CAP>(a, [&](u64 ca) { split_q<CAP>(b, [&](u64 cb) { if (ca <= m.n && cb <= CAP - m.n) {
                         M n2 = m; u64 r = k_sv_insert_fill(p, ca, cb, x); u64 e = n2.insert_fill((unsigned)ca, (unsigned)cb, x); vf_assert(r == e, "history: insert(pos,n,v) iterator"); next(n2); } }); }); break;
-            case 9: split<CAP>(a, [&](u64 ca) { M n2 = m; k_sv_assign_fill(p, ca, x); n2.assign_fill((unsigned)ca, x); next(n2); }); break;
-            case 10: { void* q = sv_raw(1); k_sv_copy_ctor(q, p); k_sv_clear(p); k_sv_copy_assign(p, q); k_sv_dtor(q); lg_expect(1, 0, 0, ESZ, TAG); next(n); break; } // copy out, clear, copy-assign back
-            default: { void* q = sv_raw(1); k_sv_new(q); k_sv_swap_member(q, p); sv_check(q, m, 1); k_sv_move_assign(p, q); k_sv_dtor(q); lg_expect(1, 0, 0, ESZ, TAG); next(n); break; } // swap out, move-assign back
+            case 9: split_q<CAP>(a, [&](u64 ca) { M n2 = m; k_sv_assign_fill(p, ca, x); n2.assign_fill((unsigned)ca, x); next(n2); }); break;
+            case 10: { lg_register(1, q, k_sv_sizeof()); k_sv_copy_ctor(q, p); k_sv_clear(p); k_sv_copy_assign(p, q); k_sv_dtor(q); lg_expect(1, 0, 0, ESZ, TAG); next(n); break; } // copy out, clear, copy-assign back
+            default: { lg_register(1, q, k_sv_sizeof()); k_sv_new(q); k_sv_swap_member(q, p); sv_check(q, m, 1); k_sv_move_assign(p, q); k_sv_dtor(q); lg_expect(1, 0, 0, ESZ, TAG); next(n); break; } // swap out, move-assign back
             }
         });
     }
 }
 Q q_sv_hist()
 {
-    M m; void* p = sv_make(m, NA, 0);
-    sv_hist<KSTEPS>(p, m);
+    M m; void* p = sv_make(m, NA, 0); void* q = sv_raw(1);
+    sv_hist<KSTEPS>(p, q, m);
 }
 #define IV_NOPS 6
 template <int NSTEP>
 static void iv_hist(void* p, M const& m)
 {
     if constexpr (NSTEP == 0) {
-        iv_check(p, m, 0); iv_fin(p, 0); END();
+        iv_check(p, m, 0); vf_witness("a complete history was executed"); iv_fin(p, 0); END();
     } else {
         u64 op = nd_idx(IV_NOPS - 1), a = nd_idx(CAP); PV x = nd_pv();
         auto next = [&](M const& n) { iv_check(p, n, 0); iv_hist<NSTEP - 1>(p, n); };
-        split<IV_NOPS - 1>(op, [&](u64 o) {
+        split_q<IV_NOPS - 1>(op, [&](u64 o) {
             M n = m; u64 r;
             switch (o) {
             case 0: r = k_iv_try_emplace_back(p, x); if (m.n == CAP) { vf_assert(r == ~u64(0), "history: try_emplace_back on full returns null"); } else { vf_assert(r == m.n, "history: try_emplace_back pointer"); n.push_back(x); } next(n); break;
@@ -567,7 +567,7 @@ static void iv_hist(void* p, M const& m)
             case 2: if (m.n < CAP) { r = k_iv_unchecked_push_back_r(p, x); vf_assert(r == m.n, "history: unchecked_push_back reference"); n.push_back(x); next(n); } break;
             case 3: if (m.n > 0) { k_iv_pop_back(p); n.pop_back(); next(n); } break;
             case 4: k_iv_clear(p); n.clear(); next(n); break;
-            default: split<CAP>(a, [&](u64 ca) { if (ca < m.n) { M n2 = m; k_iv_set_at(p, ca, x); n2.a[ca] = x; next(n2); } }); break;
+            default: split_q<CAP>(a, [&](u64 ca) { if (ca < m.n) { M n2 = m; k_iv_set_at(p, ca, x); n2.a[ca] = x; next(n2); } }); break;
             }
         });
     }
